@@ -16,10 +16,6 @@ impl vstd::std_specs::fmt::DisplaySpecImpl for Path {
     open spec fn fmt_req(&self, f: &std::fmt::Formatter<'_>) -> bool { true }
 }
 
-/// the outcome of Schedule::can_depot_spawn_vehicle (not under contract here: it only selects the Err branch; its
-/// delegate can_depot_spawn_vehicle_custom_usage is verified in slices/admission.vs)
-pub uninterp spec fn spec_can_depot_spawn(s: &Schedule, depot: NodeIdx, vt: VehicleTypeIdx) -> bool;
-
 // =====================================================================================================
 // copied text
 // =====================================================================================================
@@ -79,6 +75,68 @@ pub proof fn lemma_isum_remove(s: Seq<int>, p: int)
         lemma_isum_remove(s.drop_last(), p);
         assert(s.remove(p).drop_last() =~= s.drop_last().remove(p));
         assert(s.remove(p).last() == s.last());
+    }
+}
+
+// =====================================================================================================
+// depot admission (C02): the vocabulary of the contract of Schedule::can_depot_spawn_vehicle_custom_usage
+// [text of slices/admission.vs, where that function is verified]
+// =====================================================================================================
+impl Depot {
+    /// C02: the number of vehicles of a type that may start at a depot: 0 if the type is not listed,
+    /// the depot's total capacity if it is listed without a limit, the smaller of both otherwise
+    pub open spec fn sp_capacity_for(&self, vt: VehicleTypeIdx) -> VehicleCount {
+        if !self.allowed_types@.contains_key(vt) { 0 }
+        else {
+            match self.allowed_types@[vt] {
+                Some(c) => if c <= self.total_capacity { c } else { self.total_capacity },
+                None => self.total_capacity,
+            }
+        }
+    }
+}
+impl Network {
+    pub open spec fn has_depot(&self, d: DepotIdx) -> bool { self.depots@.contains_key(d) }
+    pub open spec fn sp_depot(&self, d: DepotIdx) -> Depot { self.depots@[d].0 }
+    /// the depot a start / end depot node belongs to
+    pub open spec fn sp_depot_idx_of(&self, n: NodeIdx) -> DepotIdx {
+        match self.sp_node(n) {
+            Node::StartDepot((_, d)) => d.depot_idx,
+            Node::EndDepot((_, d)) => d.depot_idx,
+            _ => arbitrary(),
+        }
+    }
+}
+/// C02: "the number of vehicles [of a type] starting there"
+pub open spec fn spawned_of_type(du: UsageMap, d: DepotIdx, vt: VehicleTypeIdx) -> nat {
+    if du.contains_key((d, vt)) { du[(d, vt)].0@.len() } else { 0 }
+}
+pub open spec fn spawned_counts(du: UsageMap, d: DepotIdx, types: Seq<VehicleTypeIdx>) -> Seq<int> {
+    types.map_values(|vt: VehicleTypeIdx| spawned_of_type(du, d, vt) as int)
+}
+/// C02: "the number of vehicles starting there": the total over the given vehicle types
+pub open spec fn spawned_total(du: UsageMap, d: DepotIdx, types: Seq<VehicleTypeIdx>) -> int {
+    isum(spawned_counts(du, d, types))
+}
+impl Schedule {
+    /// C02 "depot limits hold": the depot of the start depot node n has room for one more vehicle of type vt: the type is
+    /// listed there, fewer vehicles of the type start there than its capacity for the type, and fewer vehicles in total
+    /// than its total capacity (= the result of can_depot_spawn_vehicle on the schedule's own usage table)
+    pub open spec fn ap_depot_has_room(&self, n: NodeIdx, vt: VehicleTypeIdx) -> bool {
+        let d = self.network.sp_depot_idx_of(n);
+        &&& self.network.sp_depot(d).sp_capacity_for(vt) > 0
+        &&& spawned_of_type(self.depot_usage@, d, vt) < self.network.sp_depot(d).sp_capacity_for(vt)
+        &&& spawned_total(self.depot_usage@, d, self.network.vehicle_types.ids_sorted@) < self.network.sp_depot(d).total_capacity
+    }
+    /// what the admission check needs if the node is a depot node: A-depots (the depot node belongs to a depot of the
+    /// network's table) and magnitudes (the `as VehicleCount` casts of the set sizes: u32)
+    pub open spec fn ap_admission_pre(&self, n: NodeIdx, vt: VehicleTypeIdx) -> bool {
+        let d = self.network.sp_depot_idx_of(n);
+        self.network.sp_node(n).sp_is_depot() ==> {
+            &&& self.network.has_depot(d)
+            &&& spawned_of_type(self.depot_usage@, d, vt) <= u32::MAX
+            &&& spawned_total(self.depot_usage@, d, self.network.vehicle_types.ids_sorted@) <= u32::MAX
+        }
     }
 }
 
@@ -188,6 +246,10 @@ pub proof fn lemma_ap_compatible(net: &Network, t: &Tour, a: int, b: int, p: Seq
 // =====================================================================================================
 // Schedule::add_path_to_vehicle_tour: vocabulary of the contract
 // =====================================================================================================
+/// no activity occurs twice in the list
+pub open spec fn acts_distinct(net: &Network, m: Seq<NodeIdx>) -> bool {
+    forall|i: int, j: int| 0 <= i < m.len() && 0 <= j < m.len() && i != j && #[trigger] m[i] == #[trigger] m[j] ==> net.sp_node(m[i]).sp_is_depot()
+}
 impl Schedule {
     // ---- the insertion into the vehicle's tour (vocabulary of Tour::insert_path's contract) -------------------
     /// the positions Tour::insert_path cuts the old tour at: [0, s) is "the longest prefix whose last node reaches the
@@ -216,6 +278,14 @@ impl Schedule {
             ==> self.unserved_c(c) - self.un_sum(tf, Some(x), None::<Vehicle>, m, m.len() as int, false, c)
                     + self.un_sum(tf, Some(x), None::<Vehicle>, m, m.len() as int, true, c) <= u32::MAX
     }
+    /// C09 for the u32 subtractions of the two formation updates: the unserved-passengers pair is the sum over ALL
+    /// service trips of the network of their unserved passengers; hence it covers the contribution of any list of nodes
+    /// in which no activity occurs twice (depots contribute nothing).  (The clause of sv_formations_ok with
+    /// `no_duplicates` is the special case; a path and the block it displaces may share a depot.)
+    pub open spec fn ap_unserved_covers(&self) -> bool {
+        forall|m: Seq<NodeIdx>, c: int| #![trigger self.un_old(m, m.len() as int, c)] acts_distinct(&self.network, m) && all_in_net(&self.network, m) && (c == 0 || c == 1)
+            ==> self.un_old(m, m.len() as int, c) <= self.unserved_c(c)
+    }
     /// schedule-level validity as far as add_path_to_vehicle_tour needs it (parts of C10, C09, C15; the clauses are
     /// those of `sv_ok`, env/spawn_vehicle_shim.vs, without the depot lists, plus ap_unserved_room)
     pub open spec fn ap_ok(&self) -> bool {
@@ -226,6 +296,7 @@ impl Schedule {
         // C10 / C09 for the formation table: every activity has a formation; magnitudes; the cached pair covers the
         // contribution of any duplicate-free list of nodes
         &&& self.sv_formations_ok()
+        &&& self.ap_unserved_covers()
         &&& self.ap_unserved_room()
         // C15 / C10 / C09: one transition per listed type, consistent with the tours, holding exactly the type's vehicles;
         // the maintenance violation is their sum; fewer than 2^17 vehicles
@@ -250,11 +321,24 @@ impl Schedule {
         &&& tour_of_net(&self.network, &self.tours@[v]) && self.tours@[v].caches_ok() && tour_len_ok(self.tours@[v].nodes@)
         // C09: the schedule's costs cover the tour's costs (they are the sum of all tours' costs plus non-negative terms)
         &&& self.tours@[v].costs <= self.costs
+        // C10 "a vehicle is in the formation of a node exactly if its tour contains the node": the vehicle is listed in
+        // the formation of every activity of its tour
+        &&& self.ap_listed(v)
     }
-    /// no node of the path is a node of the vehicle's old tour (see "NOT covered" in the slice header: otherwise the
-    /// node is both added and displaced)
+    pub open spec fn ap_listed(&self, v: VehicleIdx) -> bool {
+        forall|i: int| 0 < i < self.tours@[v].nodes@.len() - 1
+            ==> has_vehicle(self.train_formations@[#[trigger] self.tours@[v].nodes@[i]].formation@, v)
+    }
+    /// C02 "formation … limits hold": every non-depot node of the path has room for one more vehicle (its formation is
+    /// strictly below the node's limit: repl_ok, case `grows`, env/train_formation_update_shim.vs)
+    pub open spec fn ap_room(&self, v: VehicleIdx, p: Seq<NodeIdx>) -> bool {
+        self.all_ok(self.train_formations@, None, Some(self.vehicles@[v]), p, p.len() as int)
+    }
+    /// no ACTIVITY of the path is a node of the vehicle's old tour (see "NOT covered" in the slice header: otherwise the
+    /// node is both added and displaced).  A depot of the path may be the tour's own depot (schedule/tests.rs,
+    /// add_path_to_vehicle_tour_with_same_start_depot_test): depots have no formations
     pub open spec fn ap_path_fresh(&self, v: VehicleIdx, p: Seq<NodeIdx>) -> bool {
-        forall|i: int| 0 <= i < p.len() ==> !self.tours@[v].nodes@.contains(#[trigger] p[i])
+        forall|i: int| 0 <= i < p.len() && !self.network.sp_node(#[trigger] p[i]).sp_is_depot() ==> !self.tours@[v].nodes@.contains(p[i])
     }
     /// what the path must be
     pub open spec fn ap_path_ok(&self, v: VehicleIdx, path: &Path) -> bool {
@@ -489,10 +573,12 @@ pub proof fn lemma_ap_displace_pre(s: &Schedule, v: VehicleIdx, p: Seq<NodeIdx>,
         0 <= s.ap_s(v, p) <= s.ap_e(v, p) <= s.tours@[v].len(),
     ensures
         s.tfu_pre(tf1, u1, Some(v), None, s.ap_displaced(v, p)),
+        // C10: the vehicle is listed in the formations of the displaced activities: the second update does not refuse
+        s.all_ok(tf1, Some(v), None, s.ap_displaced(v, p), s.ap_displaced(v, p).len() as int),
         // the displaced block: nodes of the network, pairwise distinct, disjoint from the path; the first update did
         // not touch their formations
         all_in_net(&s.network, s.ap_displaced(v, p)), s.ap_displaced(v, p).no_duplicates(),
-        forall|j: int| 0 <= j < s.ap_displaced(v, p).len() ==> !p.contains(#[trigger] s.ap_displaced(v, p)[j]),
+        forall|j: int| 0 <= j < s.ap_displaced(v, p).len() ==> !moved_nd(&s.network, p, #[trigger] s.ap_displaced(v, p)[j]),
         forall|j: int| 0 <= j < s.ap_displaced(v, p).len() ==> tf1[#[trigger] s.ap_displaced(v, p)[j]] == s.train_formations@[s.ap_displaced(v, p)[j]],
 {
     let t0 = s.tours@[v];
@@ -505,6 +591,7 @@ pub proof fn lemma_ap_displace_pre(s: &Schedule, v: VehicleIdx, p: Seq<NodeIdx>,
     let vt = s.type_of(v);
     let net = &s.network;
     lemma_ap_frame(s, v, p, tf1);
+    lemma_ap_block(&t0, s.ap_s(v, p), s.ap_e(v, p));
     if s.dummy_tours@.contains_key(v) { assert(v is Dummy); }
     assert(s.shrinks(pv, rv));
     assert(!s.grows(pv, rv) && !s.replaces(pv, rv));
@@ -528,6 +615,14 @@ pub proof fn lemma_ap_displace_pre(s: &Schedule, v: VehicleIdx, p: Seq<NodeIdx>,
             }
         }
     }
+    assert forall|j: int| 0 <= j < n && !net.sp_node(#[trigger] d[j]).sp_is_depot() implies s.repl_ok(tf1[d[j]].formation@, pv, rv, d[j]) by {
+        let i = s.ap_s(v, p) + j;
+        assert(d[j] == t0.nodes@[i]);
+        lemma_tour_kinds(&t0, i);
+        assert(0 < i < t0.nodes@.len() - 1);
+        assert(has_vehicle(tf0[t0.nodes@[i]].formation@, v));
+        assert(tf1[d[j]] == tf0[d[j]]);
+    }
     assert forall|k: int| 0 <= k < n implies #[trigger] s.arith_ok_at(tf1, pv, rv, d, u1.0 as int, k, 0) by {
         lemma_ap_arith(s, v, p, tf1, u1, k, 0);
     }
@@ -544,16 +639,16 @@ pub proof fn lemma_ap_frame(s: &Schedule, v: VehicleIdx, p: Seq<NodeIdx>, tf1: F
     ensures
         all_in_net(&s.network, s.ap_displaced(v, p)), s.ap_displaced(v, p).no_duplicates(),
         s.ap_displaced(v, p).len() == s.ap_e(v, p) - s.ap_s(v, p),
-        forall|j: int| 0 <= j < s.ap_displaced(v, p).len() ==> !p.contains(#[trigger] s.ap_displaced(v, p)[j]),
+        forall|j: int| 0 <= j < s.ap_displaced(v, p).len() ==> !moved_nd(&s.network, p, #[trigger] s.ap_displaced(v, p)[j]),
         forall|j: int| 0 <= j < s.ap_displaced(v, p).len() ==> tf1[#[trigger] s.ap_displaced(v, p)[j]] == s.train_formations@[s.ap_displaced(v, p)[j]],
 {
     let t0 = s.tours@[v];
     let d = s.ap_displaced(v, p);
     lemma_ap_block(&t0, s.ap_s(v, p), s.ap_e(v, p));
-    assert forall|j: int| 0 <= j < d.len() implies !p.contains(#[trigger] d[j]) && tf1[d[j]] == s.train_formations@[d[j]] && s.network.has(d[j]) by {
+    assert forall|j: int| 0 <= j < d.len() implies !moved_nd(&s.network, p, #[trigger] d[j]) && tf1[d[j]] == s.train_formations@[d[j]] && s.network.has(d[j]) by {
         assert(d[j] == t0.nodes@[s.ap_s(v, p) + j]);
         assert(t0.nodes@.contains(d[j]));
-        if p.contains(d[j]) {
+        if p.contains(d[j]) && !s.network.sp_node(d[j]).sp_is_depot() {
             let i = choose|i: int| 0 <= i < p.len() && p[i] == d[j];
             assert(!t0.nodes@.contains(p[i]));
         }
@@ -601,10 +696,13 @@ pub proof fn lemma_ap_arith(s: &Schedule, v: VehicleIdx, p: Seq<NodeIdx>, tf1: F
     lemma_un_old(s, tf0, None, Some(vh), p, np, c);
     let pd = p + d;
     lemma_un_sum_concat(s, tf0, None, None, p, d, n, false, c);
-    assert(pd.no_duplicates()) by {
-        assert forall|i: int, j: int| 0 <= i < pd.len() && 0 <= j < pd.len() && i != j implies pd[i] != pd[j] by {
-            if i < np && j >= np { assert(p.contains(p[i])); assert(!p.contains(d[j - np])); }
-            if j < np && i >= np { assert(p.contains(p[j])); assert(!p.contains(d[i - np])); }
+    assert(acts_distinct(&s.network, pd)) by {
+        assert forall|i: int, j: int| 0 <= i < pd.len() && 0 <= j < pd.len() && i != j && #[trigger] pd[i] == #[trigger] pd[j]
+            implies s.network.sp_node(pd[i]).sp_is_depot() by {
+            if i < np && j < np { assert(p[i] != p[j]); }
+            if i >= np && j >= np { assert(d[i - np] != d[j - np]); }
+            if i < np && j >= np { assert(p.contains(p[i])); assert(!moved_nd(&s.network, p, d[j - np])); }
+            if j < np && i >= np { assert(p.contains(p[j])); assert(!moved_nd(&s.network, p, d[i - np])); }
         }
     }
     assert(all_in_net(&s.network, pd)) by {
@@ -666,7 +764,7 @@ pub proof fn lemma_ap_formations(s: &Schedule, v: VehicleIdx, p: Seq<NodeIdx>, s
     assert forall|n: NodeIdx| !(moved_nd(net, p, n) && moved_nd(net, d, n)) by {
         if p.contains(n) && d.contains(n) {
             let j = choose|j: int| 0 <= j < d.len() && d[j] == n;
-            assert(!p.contains(d[j]));
+            assert(!moved_nd(net, p, d[j]));
         }
     }
     if !second {
